@@ -13,7 +13,9 @@ from ._autojac import AGG_TOL, choose_inputs, expected_update, n_rows, set_pregr
 
 RULE = ("random autograd programs (tjv.rt.gen.build: DAGs with reuse, unused leaves, leaves not requiring "
         "grad, 0-d..4-d shapes, multi-output unbind) x aggregator x parallel_chunk_size x dtype x pre-existing "
-        ".grad x subset/order of inputs; oracle = aggregator applied to a row-by-row torch.autograd.grad "
+        ".grad x subset/order of inputs x container of inputs (list, reversed list, tuple, set, generator) x optional "
+        "zero-element output tensor (shape (0,) or (2,0)) inserted among the outputs (regression family of the "
+        "repaired defect F6, key C01.zero_numel); oracle = aggregator applied to a row-by-row torch.autograd.grad "
         "Jacobian of a twin graph, sliced by an independent layout. distinct = distinct (op trace, agg, chunk, "
         "inputs) signature; non-trivial = Jacobian has >=2 rows, >=2 columns and a non-zero entry")
 BOUNDS = "<=5 leaves, <=9 ops, <=3 outputs, tensor dims <=4 of size <=3"
@@ -31,10 +33,10 @@ AGGS = [
 
 
 def cases(tier, seed, focus=None):
-    n = 160 if tier == "quick" else 4000
+    n = 200 if tier == "quick" else 5000
     rng = random.Random(1000 + seed)
     for i in range(n):
-        yield {
+        case = {
             "prog": {"seed": rng.randrange(10**9), "n_leaves": rng.randint(1, 5), "n_ops": rng.randint(2, 9),
                      "n_outputs": rng.randint(1, 3), "dtype": rng.choice(["float64", "float64", "float32"])},
             "agg": AGGS[i % len(AGGS)],
@@ -43,17 +45,60 @@ def cases(tier, seed, focus=None):
             "sel_seed": rng.randrange(10**6),
             "pre": rng.choice(["none", "some", "all"]),
             "retain": rng.random() < 0.3,
+            "inputs_as": rng.choice(["list", "list", "reversed", "tuple", "set", "gen"]),
+            "zero_out": None,
         }
+        if i % 5 == 4:  # zero-element output tensor(s) next to the non-empty ones
+            case["zero_out"] = [{"pos": rng.randrange(4), "shape": rng.choice(["0", "2x0"]), "src": rng.randrange(8)}
+                                for _ in range(rng.choice([1, 1, 2]))]
+        yield case
+
+
+def _add_zero_outputs(prog, zero_out):
+    """Inserts differentiable zero-element tensors among the outputs (same construction on both twins)."""
+    for z in zero_out or []:
+        cands = [t for t in prog.grad_leaves + prog.nodes if t.dim() >= 1] or None
+        src = cands[z["src"] % len(cands)] if cands else prog.grad_leaves[0].reshape(1)
+        e = src.reshape(-1)[:0] * 3.0
+        if z["shape"] == "2x0":
+            e = e.reshape(2, 0)
+        prog.outputs.insert(z["pos"] % (len(prog.outputs) + 1), e)
+        prog.desc.append(f"ZERO{z['shape']}@{z['pos']}")
+
+
+def _present(inputs, how):
+    if how == "reversed":
+        return list(reversed(inputs))
+    if how == "tuple":
+        return tuple(inputs)
+    if how == "set":
+        return set(inputs)
+    if how == "gen":
+        return (t for t in inputs)
+    return list(inputs)
 
 
 def run_case(case):
+    res = _run_case(case)
+    if not res["ok"] and case.get("zero_out"):
+        # is the zero-element output the cause?  the same case without it, on fresh twins
+        plain = _run_case(dict(case, zero_out=None))
+        if not plain["ok"]:
+            return dict(plain, sig=res["sig"])
+        res = dict(res, key="C01.zero_numel", what="only with a zero-element tensor among the outputs: " + res["what"])
+    return res
+
+
+def _run_case(case):
     from torchjd import backward
 
     p1, p2 = gen.build(case["prog"]), gen.build(case["prog"])
+    _add_zero_outputs(p1, case.get("zero_out"))
+    _add_zero_outputs(p2, case.get("zero_out"))
     m = n_rows(p1.outputs)
     dtype = p1.outputs[0].dtype
     agg = make_agg(case["agg"], m, dtype)
-    sig = "|".join(p1.desc) + f"|{case['agg']}|{case['chunk']}|{case['inputs']}{case['sel_seed']}"
+    sig = "|".join(p1.desc) + f"|{case['agg']}|{case['chunk']}|{case['inputs']}{case['sel_seed']}|{case.get('inputs_as')}"
     if agg is None:
         return {"ok": True, "sig": sig, "nontrivial": False, "note": "row requirement not met"}
     idx = choose_inputs(p1, case["sel_seed"], case["inputs"])
@@ -66,7 +111,13 @@ def run_case(case):
     set_pregrads(p2.leaves, case["sel_seed"], case["pre"])
     before = [None if t.grad is None else t.grad.clone() for t in p2.leaves]
     inputs1 = [p1.grad_leaves[i] for i in idx]
-    backward(p1.outputs, agg, inputs=inputs1, retain_graph=case["retain"], parallel_chunk_size=chunk)
+    try:
+        backward(p1.outputs, agg, inputs=_present(inputs1, case.get("inputs_as", "list")),
+                 retain_graph=case["retain"], parallel_chunk_size=chunk)
+    except (RuntimeError, ValueError) as e:  # the call is valid: it must be accepted
+        return {"ok": False, "sig": sig, "nontrivial": m >= 2, "key": "C01.value",
+                "what": "valid backward call raised",
+                "observed": f"{type(e).__name__}: {str(e)[:160]}", "expected": "success"}
     J, exp = expected_update(p2, idx, make_agg(case["agg"], m, dtype))
     rtol, atol = AGG_TOL.get(case["agg"]["name"], gen.tol(dtype))
     if dtype == torch.float32:
